@@ -7,18 +7,32 @@ package raft
 // for every transaction, whatever the batching, restart position or snapshot
 // install position, chunked or not.
 //
-// The monitor hand-builds raft logs the way a leader would (plain puts/deletes,
-// transactions whose verification entries are what a transaction started at
-// index s honestly observed, LowestActiveIndex values a leader could ship,
-// chunked encodings, term changes, configuration entries, index gaps), feeds
-// them to several independent state machines through the object raft itself
-// drives (FSM.chunker.ApplyBatch -> FSM.ApplyBatch) and compares
+// Three monitors share one replica driver and one oracle:
+//
+//   TestVerif_C09_Logs      seeded leader-consistent logs (<= 60 raft entries), R replicas each
+//   TestVerif_C09_Small     logs of <= 8 (thorough 9) entries: ALL batch partitions, a restart,
+//                           a crash and a snapshot install at EVERY position
+//   TestVerif_C09_LeaderLog the log is produced by a real single-node raft leader running
+//                           real transactions; the verdict it gave its client is the reference
+//
+// Logs are hand-built the way a leader would (plain puts/deletes, transactions
+// whose verification entries are what a transaction started at index s
+// honestly observed, LowestActiveIndex values a leader could ship, chunked
+// encodings interleaved with other entries, term changes, configuration
+// entries, index gaps) and fed to independent state machines through the
+// object raft itself drives (FSM.chunker.ApplyBatch -> FSM.ApplyBatch). The
+// oracle compares
 //   * every per-entry verdict with ground truth (each verification entry
-//     evaluated in full against a plain map replay of the log),
+//     evaluated in full against a plain map replay of the log; for the real
+//     leader: the verdict the leader returned),
 //   * the data bucket after every batch with that map,
 //   * the persisted/in-memory latest index with what was delivered (this is
-//     where replay resumes after a restart),
-//   * the complete bucket dump of every replica with the reference replica.
+//     where replay resumes after a restart; read through BoltSnapshotStore.List),
+//   * the complete bucket dump of every replica with the reference replica
+//     (chunk staging keys included).
+// A replica is followed up to its first deviation only (later differences are
+// consequences). fix-sketches.diff in this directory holds the three repairs
+// under which all monitors are silent (validated in a scratch worktree).
 
 import (
 	"bytes"
